@@ -217,7 +217,9 @@ def check(ctx):
                     pre = [b for b in body.dom[first["b"]] if b != first["b"]]
                     badp = [(b, body.term(b)[1].get("fname")) for b in pre if body.term(b)[0] == "Call" and body.term(b)[1].get("fname") in (BLOCKING | {"publish_leaked_internal", "try_send", "dealloc_id", "dealloc_ref"})]
                     ctx.ob("R16.2", f"{k}|nothing-before-the-capacity-test", not badp, body.loc(first["b"]), "no blocking or publishing call precedes the capacity test")
-    ctx.floor("R16.2", 30)
+    # ... and the layer underneath answers "no slot" at once: no container / pool operation waits for a slot to come back (shared with C20 R20.6)
+    importlib.import_module("props.C20").check_container_no_wait(ctx, "R16.2")
+    ctx.floor("R16.2", 60)
     # ------------------------------------------------------------------ R16.3 exact capacity
     C02 = importlib.import_module("props.C02")
     class OnlyGuards(util.PrefixedCtx):
